@@ -29,6 +29,25 @@
 (*           "fct"   "src": Source(gen, extract, fill/compute element):    *)
 (*                   a Source that contains a fill/compute element is      *)
 (*                   still a Source; yields one Tag(b,"c",<<1..m>>)        *)
+(*           "sq"    fill kinds given as an explicit lena.core.Sequence    *)
+(*                   OBJECT: Sequence(el).  Per the Split docstring a      *)
+(*                   Sequence is a Sequence whatever it holds: it is run   *)
+(*                   on every block ("fc": the Run adapter fills the block *)
+(*                   and yields compute(), the harness element forgets its *)
+(*                   values after compute; "fr": the element also has a    *)
+(*                   run method, which tags like "seq")                    *)
+(*           "sqpp"  "fc": Sequence(pre, el, post)                         *)
+(*           "sqin"  "fc": Sequence(FillComputeSeq(el))                    *)
+(*           "run"   fill kinds: the bare element also has a run method;   *)
+(*                   it is a fill/compute (fill/request) element all the   *)
+(*                   same (check_sequence_type: "it is a FillCompute       *)
+(*                   element")                                             *)
+(*   eq    what == says about the branch element (the schedule must not    *)
+(*         depend on it: branches are told apart by position only)         *)
+(*           "id"    identity (default)                                    *)
+(*           "all"   equal to every object (also from the other side)      *)
+(*           "tot"   like lena.math.Sum: equal to another such element     *)
+(*                   when the sums of the values they hold coincide        *)
 (*   sub, ibs  t = "nest": the branch is itself a Split of the kinds sub   *)
 (*         with bufsize ibs (tags of inner branch j of branch b: 10*b+j)   *)
 (***************************************************************************)
@@ -36,7 +55,7 @@ EXTENDS Integers, Sequences, FiniteSets, TLC, Json
 
 None == -1000
 Tag(b, kind, payload) == [b |-> b, k |-> kind, p |-> payload]
-KindRec(t, stop, m, form, sub, ibs) == [t |-> t, stop |-> stop, m |-> m, form |-> form, sub |-> sub, ibs |-> ibs]
+KindRec(t, stop, m, form, sub, ibs) == [t |-> t, stop |-> stop, m |-> m, form |-> form, sub |-> sub, ibs |-> ibs, eq |-> "id"]
 Src == KindRec("src", None, 2, "el", <<>>, None)
 FC(s) == KindRec("fc", s, None, "el", <<>>, None)
 FR(s) == KindRec("fr", s, None, "el", <<>>, None)
@@ -45,6 +64,7 @@ FiltK == KindRec("filt", None, None, "el", <<>>, None)
 SeqK == KindRec("seq", None, None, "el", <<>>, None)
 WithForm(kd, f) == [kd EXCEPT !.form = f]
 WithM(kd, m) == [kd EXCEPT !.m = m]
+WithEq(kd, e) == [kd EXCEPT !.eq = e]
 Nest(sub, ibs) == KindRec("nest", None, None, "el", sub, ibs)
 
 KindsQuick == {Src, FC(None), FC(0), FC(1), FC(2), FC(3), FR(None), FR(0), FR(1), FR(2), MapK, FiltK, SeqK}
@@ -61,12 +81,20 @@ Min(a, b) == IF a < b THEN a ELSE b
 (* (fill/request) offers fill and compute (request) and is therefore a     *)
 (* fill/compute (fill/request) branch; any other Split is a run element.   *)
 (***************************************************************************)
-ClassOf(kd) ==
-  CASE kd.t = "src" -> "src" [] kd.t = "fc" -> "fc" [] kd.t = "fr" -> "fr"
-    [] kd.t = "nest" -> (IF kd.sub # <<>> /\ \A j \in 1..Len(kd.sub) : kd.sub[j].t = "fc" THEN "fc"
-                         ELSE IF kd.sub # <<>> /\ \A j \in 1..Len(kd.sub) : kd.sub[j].t = "fr" THEN "fr"
-                         ELSE "run")
+(* An explicit type wins over the methods of what the object holds: a      *)
+(* Source is a Source, a FillComputeSeq a fill/compute branch, a           *)
+(* lena.core.Sequence object a plain Sequence even when it holds           *)
+(* fill/compute or fill/request elements (SeqObjForms).                    *)
+SeqObjForms == {"sq", "sqpp", "sqin"}
+Class1(kd) ==
+  CASE kd.t = "src" -> "src"
+    [] kd.t \in {"fc", "fr"} -> (IF kd.form \in SeqObjForms THEN "run" ELSE kd.t)
     [] OTHER -> "run"
+ClassOf(kd) ==
+  CASE kd.t = "nest" -> (IF kd.sub # <<>> /\ \A j \in 1..Len(kd.sub) : Class1(kd.sub[j]) = "fc" THEN "fc"
+                         ELSE IF kd.sub # <<>> /\ \A j \in 1..Len(kd.sub) : Class1(kd.sub[j]) = "fr" THEN "fr"
+                         ELSE "run")
+    [] OTHER -> Class1(kd)
 \* no state is kept between invocations (two runs of one object may be interleaved)
 StatelessKind(kd) == IF kd.t = "nest" THEN \A j \in 1..Len(kd.sub) : kd.sub[j].t \in {"src", "map", "filt", "seq"}
                      ELSE kd.t \in {"src", "map", "filt", "seq"}
@@ -74,21 +102,17 @@ StatelessKind(kd) == IF kd.t = "nest" THEN \A j \in 1..Len(kd.sub) : kd.sub[j].t
 (***************************************************************************)
 (* What one invocation of a branch yields.                                 *)
 (***************************************************************************)
-PreV(kd, v) == IF kd.form = "pp" THEN v + 100 ELSE v
+PPForms == {"pp", "sqpp"}
+PreV(kd, v) == IF kd.form \in PPForms THEN v + 100 ELSE v
 PreSeq(kd, vs) == [j \in 1..Len(vs) |-> PreV(kd, vs[j])]
 PostTag(k) == CASE k = "c" -> "cp" [] k = "r" -> "rp" [] k = "m" -> "mp" [] k = "f" -> "fp" [] k = "end" -> "endp" [] OTHER -> k
-KTag(kd, k) == IF kd.form = "pp" THEN PostTag(k) ELSE k
+KTag(kd, k) == IF kd.form \in PPForms THEN PostTag(k) ELSE k
 SrcOutK(b, kd) ==
   IF kd.form = "fct" THEN <<Tag(b, "c", [i \in 1..kd.m |-> i])>>
   ELSE [i \in 1..kd.m |-> Tag(b, IF kd.form = "obj" THEN "st" ELSE "s", <<i>>)]
 SrcOut(b) == SrcOutK(b, Src)
 RECURSIVE Evens(_)
 Evens(vs) == IF vs = <<>> THEN <<>> ELSE (IF Head(vs) % 2 = 0 THEN <<Head(vs)>> ELSE <<>>) \o Evens(Tail(vs))
-SeqRun(b, kind, vs0) ==
-  LET vs == PreSeq(kind, vs0) IN
-  CASE kind.t = "map" -> [j \in 1..Len(vs) |-> Tag(b, KTag(kind, "m"), <<vs[j]>>)]
-    [] kind.t = "filt" -> LET e == Evens(vs) IN [j \in 1..Len(e) |-> Tag(b, KTag(kind, "f"), <<e[j]>>)]
-    [] kind.t = "seq" -> [j \in 1..Len(vs) |-> Tag(b, KTag(kind, "m"), <<vs[j]>>)] \o <<Tag(b, KTag(kind, "end"), <<Len(vs)>>)>>
 \* fill the values vs into a collecting element that raises LenaStopFill on attempt stop+1
 RECURSIVE FillAll(_, _, _)
 FillAll(stop, s, vs) ==
@@ -99,6 +123,14 @@ FillAll(stop, s, vs) ==
 ResultsOf(b, k, kd, filled) ==
   IF kd.m = None THEN <<Tag(b, KTag(kd, k), PreSeq(kd, filled))>>
   ELSE [i \in 1..kd.m |-> Tag(b, KTag(kd, k), <<i>> \o PreSeq(kd, filled))]
+\* one invocation of a run branch on the values vs0 (a plain Sequence run on a block)
+SeqRun(b, kind, vs0) ==
+  LET vs == PreSeq(kind, vs0) IN
+  CASE kind.t = "map" -> [j \in 1..Len(vs) |-> Tag(b, KTag(kind, "m"), <<vs[j]>>)]
+    [] kind.t = "filt" -> LET e == Evens(vs) IN [j \in 1..Len(e) |-> Tag(b, KTag(kind, "f"), <<e[j]>>)]
+    [] kind.t \in {"seq", "fr"} -> [j \in 1..Len(vs) |-> Tag(b, KTag(kind, "m"), <<vs[j]>>)] \o <<Tag(b, KTag(kind, "end"), <<Len(vs)>>)>>
+    \* a Sequence object around a fill/compute element: fill the block, yield compute()
+    [] kind.t = "fc" -> ResultsOf(b, "c", kind, vs0)
 RECURSIVE ConcatSub(_, _, _, _, _)
 ConcatSub(b, k, subs, filled, j) ==
   IF j > Len(subs) THEN <<>> ELSE ResultsOf(10 * b + j, k, subs[j], filled) \o ConcatSub(b, k, subs, filled, j + 1)
